@@ -658,23 +658,412 @@ def _check_norm(ctx, fi, xs, nas, A, what):
                 key='%s | mass conservation %s' % (fi.full, what))
 
 
+def _r4_bundle_area(ctx, cg):
+    """R4 (0), decided on the value: the entry 'area' of the record that
+    calculate_geometry publishes as 'bundle_params' is, at the end of the
+    function, exactly A_0 N_0 + A_1 N_1 + A_2 N_2, with A_k element k of the
+    array published as params['area'] and N_k = n_sc[k].
+
+    The statements that define the entry (its backward slice through scalar
+    locals) are executed symbolically over poly.Rat, in source order: plain
+    and augmented assignments, a dict display for the record, loops whose
+    iteration space is a literal (`range(c)`, a display) or is made of
+    arrays of known constant length (`enumerate` / `zip` / direct iteration
+    over an array allocated by np.zeros(k)), unrolled.  A slice statement
+    under a condition, in a loop of unknown extent or of a kind that is not
+    modelled makes the rule fail (the construct is quoted); so does a store
+    into the area array behind a read of it by the slice (the atoms A_k stand
+    for the published values)."""
+    fn = cg.node
+
+    def txt(n):
+        return ' '.join(src(n).split())
+
+    def fail(node, why):
+        ctx.require(False, 'C12.R4', cg, node,
+                    'bundle flow area must be the sum over the three coolant '
+                    'subchannel types of N_i * A_i (%s)' % why,
+                    key=cg.full + ' | A = sum NA')
+
+    nodes = list(walk_no_nested(fn, False))
+    assigns = [n for n in nodes if isinstance(n, (ast.Assign, ast.AugAssign))]
+    params = set(cg.params)
+    loopvars = {y.id for n in nodes if isinstance(n, (ast.For,
+                                                      ast.comprehension))
+                for y in ast.walk(n.target) if isinstance(y, ast.Name)}
+
+    def targets(st):
+        return st.targets if isinstance(st, ast.Assign) else [st.target]
+
+    def name_defs(x):
+        return [st for st in assigns for t in targets(st)
+                for y in ast.walk(t) if isinstance(y, ast.Name)
+                and isinstance(y.ctx, ast.Store) and y.id == x]
+
+    def path(e, depth=0):
+        """Text of the container an expression denotes, through local
+        aliases: a local bound once to a look-up chain is that chain; a local
+        container stored whole, once, into a chain (or as the value of a
+        constant key of a record display) is that chain."""
+        if isinstance(e, ast.Name) and depth < 8 and e.id not in params \
+                and e.id not in loopvars:
+            ds = name_defs(e.id)
+            if len(ds) == 1 and isinstance(ds[0], ast.Assign) and \
+                    len(ds[0].targets) == 1 and isinstance(
+                        ds[0].targets[0], ast.Name):
+                v = ds[0].value
+                if isinstance(v, (ast.Name, ast.Subscript, ast.Attribute)) \
+                        and not any(isinstance(c_, ast.Call)
+                                    for c_ in ast.walk(v)):
+                    return path(v, depth + 1)
+                outs = []
+                for st in assigns:
+                    if not (isinstance(st, ast.Assign)
+                            and len(st.targets) == 1):
+                        continue
+                    t = st.targets[0]
+                    if isinstance(st.value, ast.Name) and \
+                            st.value.id == e.id and isinstance(
+                                t, ast.Subscript) and isinstance(
+                                const(t.slice), str):
+                        outs.append(path(t, depth + 1))
+                    if isinstance(st.value, ast.Dict) and isinstance(
+                            t, (ast.Name, ast.Subscript)):
+                        for k_, v_ in zip(st.value.keys, st.value.values):
+                            if isinstance(v_, ast.Name) and v_.id == e.id \
+                                    and k_ is not None and isinstance(
+                                        const(k_), str):
+                                outs.append("%s[%r]" % (path(t, depth + 1),
+                                                        const(k_)))
+                if len(outs) == 1:
+                    return outs[0]
+        if isinstance(e, ast.Subscript) and isinstance(const(e.slice), str):
+            return "%s[%r]" % (path(e.value, depth), const(e.slice))
+        return txt(e)
+
+    # the records published as 'params' / 'bundle_params' (the recorded
+    # names if the publication cannot be read off)
+    pub = {}
+    for n in nodes:
+        if isinstance(n, ast.Assign) and len(n.targets) == 1 and isinstance(
+                n.targets[0], ast.Subscript) and isinstance(
+                n.value, ast.Name):
+            k = const(n.targets[0].slice)
+            if k in ('params', 'bundle_params'):
+                pub.setdefault(k, set()).add(n.value.id)
+        if isinstance(n, ast.Dict):
+            for k_, v_ in zip(n.keys, n.values):
+                if k_ is not None and const(k_) in (
+                        'params', 'bundle_params') and isinstance(
+                        v_, ast.Name):
+                    pub.setdefault(const(k_), set()).add(v_.id)
+    sc = min(pub['params']) if len(pub.get('params', ())) == 1 else 'sc_ww'
+    bn = min(pub['bundle_params']) if len(
+        pub.get('bundle_params', ())) == 1 else 'bundle'
+    AREA = "%s['area']" % path(ast.Name(id=sc, ctx=ast.Load()))
+    BN = path(ast.Name(id=bn, ctx=ast.Load()))
+    TOT = "%s['area']" % BN
+
+    def forwards(st, p):
+        return isinstance(st, ast.Assign) and isinstance(
+            st.value, ast.Name) and path(st.value) == p
+
+    def length(e):
+        """Constant length of the array an expression denotes, or None."""
+        p = path(e)
+        ws = [st for st in assigns for t in targets(st)
+              if isinstance(t, (ast.Subscript, ast.Name)) and path(t) == p
+              and not forwards(st, p)]
+        if len(ws) != 1 or not isinstance(ws[0], ast.Assign):
+            return None
+        v = ws[0].value
+        if isinstance(v, ast.Call) and txt(v.func) in (
+                'np.zeros', 'np.ones', 'np.empty') and len(v.args) == 1 \
+                and not v.keywords and isinstance(const(v.args[0]), int) \
+                and not isinstance(const(v.args[0]), bool):
+            return const(v.args[0])
+        return None
+
+    class Undecided(Exception):
+        def __init__(self, node, why):
+            self.node, self.why = node, why
+
+    state = {}          # scalar locals and entries of the bundle record
+    reads = []          # (element index or None, line) of the area array
+
+    def as_int(r):
+        if r.d == Poly.const(1) and set(r.n.t) <= {()}:
+            f = r.n.t.get((), Fraction(0))
+            if f.denominator == 1:
+                return int(f)
+        return None
+
+    def elem(p, k, node):
+        if p == AREA:
+            reads.append((k, node.lineno))
+            return Rat.sym('A%d' % k)
+        if p == 'n_sc' and 'n_sc' in params and not name_defs('n_sc'):
+            return Rat.sym('N%d' % k)
+        return Rat.sym('<%s[%d]>' % (p, k))
+
+    def opaque(e):
+        if any(path(x) == AREA for x in ast.walk(e)
+               if isinstance(x, (ast.Name, ast.Subscript))):
+            reads.append((None, e.lineno))
+        return Rat.sym('<%s>' % txt(e))
+
+    def conv(e, env):
+        c = const(e)
+        if isinstance(c, (int, float)) and not isinstance(c, bool):
+            return Rat.const(Fraction(str(c)))
+        if isinstance(e, ast.Name):
+            if e.id in env:
+                return env[e.id]
+            if e.id in state:
+                return state[e.id]
+            return opaque(e)
+        if isinstance(e, ast.UnaryOp) and isinstance(e.op, (ast.USub,
+                                                             ast.UAdd)):
+            v = conv(e.operand, env)
+            return -v if isinstance(e.op, ast.USub) else v
+        if isinstance(e, ast.BinOp):
+            if isinstance(e.op, ast.Pow):
+                k = const(e.right)
+                if isinstance(k, int) and not isinstance(k, bool):
+                    return conv(e.left, env) ** k
+                return opaque(e)
+            l, r = conv(e.left, env), conv(e.right, env)
+            if isinstance(e.op, ast.Add):
+                return l + r
+            if isinstance(e.op, ast.Sub):
+                return l - r
+            if isinstance(e.op, ast.Mult):
+                return l * r
+            if isinstance(e.op, ast.Div) and not r.is_zero():
+                return l / r
+            return opaque(e)
+        if isinstance(e, ast.Subscript):
+            p = path(e)
+            if p.startswith(BN + '[') and p in state:
+                return state[p]
+            if not isinstance(e.slice, (ast.Slice, ast.Tuple)) and \
+                    not isinstance(const(e.slice), str):
+                k = as_int(conv(e.slice, env))
+                if k is not None and k < 0 and length(e.value) is not None:
+                    k += length(e.value)
+                if k is not None and k >= 0:
+                    return elem(path(e.value), k, e)
+        return opaque(e)
+
+    def items(it, env):
+        """Per-pass values of an iterable: list of value trees (Rat or tuple
+        of trees), or None when the extent is not a known constant."""
+        if isinstance(it, ast.Call) and isinstance(it.func, ast.Name) \
+                and not it.keywords:
+            f, a = it.func.id, it.args
+            if f == 'range' and 1 <= len(a) <= 2:
+                b = [as_int(conv(x, env)) for x in a]
+                if len(a) == 1 and isinstance(a[0], ast.Call) and \
+                        txt(a[0].func) == 'len' and len(a[0].args) == 1:
+                    b = [length(a[0].args[0])]
+                if any(x is None for x in b):
+                    return None
+                return [Rat.const(k) for k in range(*b)]
+            if f == 'enumerate' and len(a) == 1:
+                inner = items(a[0], env)
+                return None if inner is None else [
+                    (Rat.const(k), v) for k, v in enumerate(inner)]
+            if f == 'zip' and a:
+                cols = [items(x, env) for x in a]
+                if any(c_ is None for c_ in cols):
+                    return None
+                return [tuple(r_) for r_ in zip(*cols)]
+            return None
+        if isinstance(it, (ast.List, ast.Tuple)):
+            return [conv(x, env) for x in it.elts]
+        if isinstance(it, (ast.Name, ast.Subscript)):
+            n_ = length(it)
+            if n_ is None:
+                return None
+            return [elem(path(it), k, it) for k in range(n_)]
+        return None
+
+    def bind(t, v, env):
+        if isinstance(t, ast.Name) and isinstance(v, Rat):
+            env[t.id] = v
+            return True
+        if isinstance(t, (ast.Tuple, ast.List)) and isinstance(v, tuple) \
+                and len(t.elts) == len(v):
+            return all(bind(a, b, env) for a, b in zip(t.elts, v))
+        return False
+
+    def key_of(t):
+        if isinstance(t, ast.Name):
+            return t.id
+        if isinstance(t, ast.Subscript) and path(t) == TOT:
+            return TOT
+        return None
+
+    def record_display(st):
+        return isinstance(st, ast.Assign) and isinstance(
+            st.value, ast.Dict) and any(path(t) == BN for t in st.targets
+                                        if isinstance(t, (ast.Name,
+                                                          ast.Subscript)))
+
+    # backward slice of the bundle area through scalar locals (names that
+    # are only subscripted are containers: they are read through path())
+    want = {TOT}
+    slice_ = []
+    changed = True
+    while changed:
+        changed = False
+        for st in assigns:
+            if any(st is s_ for s_ in slice_):
+                continue
+            if not (record_display(st) or any(
+                    key_of(y) in want for t in targets(st)
+                    for y in ([t] if not isinstance(t, (ast.Tuple, ast.List))
+                              else ast.walk(t))
+                    if isinstance(y, (ast.Name, ast.Subscript)))):
+                continue
+            slice_.append(st)
+            changed = True
+            vs = [st.value]
+            if record_display(st):
+                vs = [v_ for k_, v_ in zip(st.value.keys, st.value.values)
+                      if k_ is None or const(k_) == 'area']
+            bases = {id(x.value) for v_ in vs for x in ast.walk(v_)
+                     if isinstance(x, ast.Subscript)}
+            for v_ in vs:
+                for y in ast.walk(v_):
+                    if isinstance(y, ast.Name) and id(y) not in bases and \
+                            y.id not in params and y.id not in loopvars \
+                            and name_defs(y.id):
+                        want.add(y.id)
+    sl = set(map(id, slice_))
+
+    def holds(st):
+        return any(id(x) in sl for x in ast.walk(st))
+
+    def execute(st, env):
+        if isinstance(st, ast.Assign):
+            if len(st.targets) != 1:
+                raise Undecided(st, 'chained assignment')
+            t = st.targets[0]
+            if isinstance(t, ast.Tuple) and isinstance(
+                    st.value, ast.Tuple) and len(t.elts) == len(
+                    st.value.elts) and all(isinstance(x, ast.Name)
+                                           for x in t.elts):
+                vals = [conv(v_, env) for v_ in st.value.elts]
+                for x, v_ in zip(t.elts, vals):
+                    state[x.id] = v_
+                return
+            if isinstance(t, (ast.Name, ast.Subscript)) and path(t) == BN:
+                for k in [k for k in state if k.startswith(BN + '[')]:
+                    del state[k]
+                if isinstance(st.value, ast.Dict):
+                    for k_, v_ in zip(st.value.keys, st.value.values):
+                        if k_ is None or not isinstance(const(k_), str):
+                            raise Undecided(st, 'record display')
+                        if const(k_) == 'area':
+                            state[TOT] = conv(v_, env)
+                return
+            k = key_of(t)
+            if k is None:
+                raise Undecided(st, 'store not modelled')
+            state[k] = conv(st.value, env)
+            return
+        k = key_of(st.target)
+        if k is None:
+            raise Undecided(st, 'store not modelled')
+        cur = state.get(k)
+        if cur is None:
+            cur = Rat.sym('<%s>' % k)
+        v = conv(st.value, env)
+        if isinstance(st.op, ast.Add):
+            state[k] = cur + v
+        elif isinstance(st.op, ast.Sub):
+            state[k] = cur - v
+        elif isinstance(st.op, ast.Mult):
+            state[k] = cur * v
+        elif isinstance(st.op, ast.Div) and not v.is_zero():
+            state[k] = cur / v
+        else:
+            raise Undecided(st, 'operator not modelled')
+
+    def block(stmts, env):
+        for st in stmts:
+            if id(st) in sl:
+                execute(st, env)
+            elif not holds(st):
+                continue
+            elif isinstance(st, ast.For) and not st.orelse and not any(
+                    isinstance(x, (ast.Break, ast.Continue, ast.Return))
+                    for x in ast.walk(st)):
+                its = items(st.iter, env)
+                if its is None:
+                    raise Undecided(st, 'the number of passes of `for %s in '
+                                    '%s` is not a known constant'
+                                    % (txt(st.target), txt(st.iter)))
+                for v in its:
+                    e2 = dict(env)
+                    if not bind(st.target, v, e2):
+                        raise Undecided(st, 'loop target')
+                    block(st.body, e2)
+            else:
+                raise Undecided(st, 'defined under `%s`' % txt(st)[:60])
+
+    try:
+        block(fn.body, {})
+    except Undecided as u:
+        fail(u.node, u.why)
+        return
+    got = state.get(TOT)
+    exp = Rat.const(0)
+    for k in range(3):
+        exp = exp + Rat.sym('A%d' % k) * Rat.sym('N%d' % k)
+    if got is None or not got.equals(exp):
+        fail(max(slice_, key=lambda s_: s_.lineno) if slice_ else fn,
+             'found %s = %r with A_k = %s[k], N_k = n_sc[k]'
+             % ("%s['area']" % bn, None if got is None else (
+                 got.n if got.d == Poly.const(1) else got),
+                "%s['area']" % sc))
+        return
+    # the elements read are the published ones: no store into the area array
+    # behind a read of that element
+    late = None
+    for st in assigns:
+        for t in targets(st):
+            if not isinstance(t, (ast.Subscript, ast.Name)):
+                continue
+            if path(t) == AREA:
+                k = None
+                if forwards(st, AREA):
+                    continue
+            elif isinstance(t, ast.Subscript) and path(t.value) == AREA:
+                k = const(t.slice)
+                if not isinstance(k, int) or isinstance(k, bool):
+                    k = None
+            else:
+                continue
+            if late is None and any(
+                    ln < st.lineno and (rk is None or k is None or rk == k)
+                    for rk, ln in reads):
+                late = st
+    ctx.require(late is None, 'C12.R4', cg, late if late is not None else fn,
+                'bundle flow area must be the sum over the three coolant '
+                'subchannel types of N_i * A_i (the area array is stored '
+                'into after the sum has read it)',
+                key=cg.full + ' | A = sum NA')
+
+
 def r4(ctx):
     repo = ctx.repo
     sym = {}
     conv = _frac_pow_hook(sym)
     # (0) the bundle flow area is by definition the sum of N_i A_i
     cg = repo.func('region_rodded', 'calculate_geometry')
-    h0 = find_all("bundle['area'] = 0.0", cg.node, 'stmt')
-    h1 = find_all("bundle['area'] += sc_ww['area'][sci] * n_sc[sci]", cg.node,
-                  'stmt')
-    ok = len(h0) == 1 and len(h1) == 1
-    if ok:
-        lp = U.enclosing_loops(h1[0][0])
-        ok = len(lp) == 1 and src(lp[0].iter) == 'range(3)' and \
-            not U.guards(h1[0][0], stop=lp[0])
-    ctx.require(ok, 'C12.R4', cg, h1[0][0] if h1 else cg.node,
-                'bundle flow area must be the sum over the three coolant '
-                'subchannel types of N_i * A_i', key=cg.full + ' | A = sum NA')
+    _r4_bundle_area(ctx, cg)
     # (1) constant laminar / turbulent splits
     fi = repo.func('correlations.flowsplit_ctd', '_calc_constant_flowsplits')
     at = {"asm_obj.bundle_params['area']": 'A'}
